@@ -7,26 +7,34 @@ import re
 import sys
 
 V = os.path.dirname(os.path.dirname(os.path.abspath(__file__)))
-logs = sys.argv[1:] or sorted(glob.glob(os.path.join(V, ".cache/tmp/seeded*.log"))) + [os.path.join(V, ".cache/tmp/seedq.log")]
+logs = sys.argv[1:] or sorted(glob.glob(os.path.join(V, ".cache/tmp/seeded*.log"))) + [os.path.join(V, ".cache/tmp/seedq.log"),
+                                                                                     os.path.join(V, ".cache/tmp/tryq.log")]
 res = {}          # seeded id -> {check id: (exit, nviol)}
 for lg in logs:
     if not os.path.exists(lg):
         continue
     cur = None
+    cursid = None
     for line in open(lg):
         m = re.match(r"## \S+ /verif/tools/confirm_and_try.sh (C\d+)", line)
         if m:
             cur = m.group(1)
+            continue
+        m = re.match(r"## seeded (C\d+-[AB]\d?)", line)
+        if m:
+            cursid = m.group(1)
             continue
         m = re.match(r"(\S+)/(\S+\.diff) (C\d+) exit=(\d+) violations=(\d+)", line)
         if not m:
             continue
         d, f, chk, rc, nv = m.groups()
         if d == "out":
-            pid = cur
-            if pid is None:
+            if cursid is not None:
+                sid = cursid
+            elif cur is not None:
+                sid = "%s-%s" % (cur, "A" if "mutA" in f else "B")
+            else:
                 continue
-            sid = "%s-%s" % (pid, "A" if "mutA" in f else "B")
         else:
             sid = d
         if rc in ("0", "1"):
